@@ -35,3 +35,10 @@ claim('C07', 'c07_mbuff.c',
       'bytes and length equal the ideal sequence, capacity >= length, allocation >= capacity and no access outside the exact-size buffers; '
       'index/rindex/find report the length when absent; cmp is lexicographic with the shorter prefix first.',
       'DESIGN.md section 4, C07')
+claim('C02', 'c02_lists.c',
+      'CBMC inductive-step check: each list operation of array / linked_list / dlinked_list from an arbitrary valid state vs one ideal-sequence model; representation invariant + read-back through get(i) and a fresh iterator',
+      'For each of the three classes and every list operation, from every state shape (length, placeholder pattern) with symbolic element values, '
+      'the solver shows the result and the resulting contents equal the ideal sequence (NULL placeholders where insert_at grew it), the class '
+      'invariant (chain length, back links, tail) holds afterwards, get(i) agrees for i in [-n,n], an iterator yields exactly count elements in '
+      'order, and no access leaves the container. All three classes are compared with the same oracle, hence interchangeable.',
+      'DESIGN.md section 4, C02')
